@@ -344,6 +344,11 @@ def stall_class(bt, stuck=(), script=None, cfg=None):
     if cfg.get('ranks', 1) > 1:
         k = 'dtd:stall:multi-rank:' + ('reader-chains' if m.get('pure_reader_params') else 'writers-only')
         if (script.feat.get('rounds') or 1) > 1: k += ':second-round'
+        elif m.get('pure_reader_params'):
+            # the recorded reader-chain stall (DESIGN 6.8) is recognised by its blocked frame; any other blocked state is a different failure;
+            # without a backtrace the stall cannot be attributed and stays inconclusive (None)
+            if not re.search(r'#\d+\s', bt or ''): return None
+            k += ':spinning-in-made_sure_nextinline_is_null' if re.search(r'\bmade_sure_nextinline_is_null\b', bt) else ':no-thread-in-made_sure_nextinline_is_null'
         return k
     return 'dtd:stall:single-rank'
 
@@ -441,8 +446,13 @@ class Campaign:
         if r.stalled:
             r2 = runner()
             if r2.stalled:
-                cls = stall_class(r2.backtraces or r.backtraces, r2.of('stuck') + r.of('stuck'), s, cfg)
+                cls = stall_class((r2.backtraces or '') + (r.backtraces or ''), r2.of('stuck') + r.of('stuck'), s, cfg)
                 persist_script(r2, txt)
+                if cls is None:
+                    ctx.inconclusive_case('%s stalled twice but no backtrace could be taken: the stall cannot be attributed' % what)
+                    print('INCONCLUSIVE %s: stalled twice, gdb gave no backtrace' % what)
+                    job['status'] = 'inconclusive'; job['result'] = r2
+                    return job
                 if feature: cls = cls.replace('dtd:stall', 'stall')
                 key = (feature + ':' if feature else '') + (job.get('stall_key') or cls)
                 v = ctx.violation(key, '%s made no progress twice (no task executed during the stall window); blocked in: %s; %s'
